@@ -5,6 +5,7 @@ import (
 	"io"
 	"net/http"
 	"net/url"
+	"sync"
 
 	"github.com/thushan/olla/internal/config"
 	"github.com/thushan/olla/internal/core/ports"
@@ -126,17 +127,30 @@ func VerifRateLimit() {
 func VerifRateLimitConcurrent() {
 	G, burst := gosym.Param("G"), gosym.Param("BURST")
 	rl := NewRateLimitValidator(config.ServerRateLimits{PerIPRequestsPerMinute: 1, BurstSize: burst}, nil, zzLog{})
-	admitted, done := 0, 0
+	verdict := make([]int, G) // private slot per goroutine
+	var wg sync.WaitGroup
+	wg.Add(G)
 	for i := 0; i < G; i++ {
+		i := i
 		go func() {
+			defer wg.Done()
 			res, err := rl.Validate(context.Background(), ports.SecurityRequest{ClientID: "198.51.100.7", Endpoint: "/olla/proxy/x", Method: "POST"})
+			verdict[i] = 1
 			if err == nil && res.Allowed {
-				admitted++
+				verdict[i] = 2
 			}
-			done++
 		}()
 	}
-	gosym.RunPending()
+	wg.Wait()
+	admitted, done := 0, 0
+	for _, v := range verdict {
+		if v > 0 {
+			done++
+		}
+		if v == 2 {
+			admitted++
+		}
+	}
 	gosym.Assert(done == G, "every request gets a verdict")
 	gosym.Assert(admitted <= burst, "concurrent first-contact requests of one IP share one bucket: at most burst are admitted")
 	gosym.Assert(admitted >= 1, "the burst is usable")
